@@ -236,3 +236,28 @@ Print Assumptions Props.C04.C04_back_go_payload_partial.
 Goal forallb (fun L => forallb (Proofs.C04_Matrix.c04m_ok L) Proofs.C04_Matrix.c04m_bases) all_langs = true.
 Proof. exact Props.C04.C04_marker_matrix. Qed.
 Print Assumptions Props.C04.C04_marker_matrix.
+Goal forall (uc : unicode) (cfg : go_config) f g s m s',
+    go_no_pointer_slice cfg = false -> type_override f Go = None ->
+    (is_optional (fty f) = true -> tmap_get (go_type_mappings cfg) (rtype_display (fty f)) = None) ->
+    go_member_of uc cfg g f s = Ok (m, s') ->
+    gm_omitempty m = (is_optional (fty f) || has_default f) /\
+    gm_star m = (has_default f && negb (is_optional (fty f))) /\
+    exists x s1 s2 y s3 s4, go_texp cfg g (fty f) s = Ok (x, s1) /\ go_acronyms_ty uc cfg x s1 = Ok (gm_type m, s2) /\
+      go_texp cfg g (Proofs.C04.c04_strip (fty f)) s3 = Ok (y, s4) /\ c04_strip_gptr x = y /\ c04_is_gptr x = is_optional (fty f).
+Proof. exact Props.C04.C04_back_go_field_markers. Qed.
+Print Assumptions Props.C04.C04_back_go_field_markers.
+Goal forall (uc : unicode) (tstr : str -> option ty) check_flatten rename_all (f : field) (rf : rfield) pos ref,
+    get_field_type_override uc (f_attrs f) = None ->
+    parse_field uc tstr check_flatten rename_all f = Ok rf ->
+    Proofs.C04_Back.c04_expect_of pos (fty rf) (has_default rf) ref =
+    {| c04e_pos := pos; c04e_depth := c04_opt_depth (f_ty f); c04e_default := bare_default (f_attrs f); c04e_ref := ref |}.
+Proof. exact Props.C04.C04_expectation_from_source. Qed.
+Print Assumptions Props.C04.C04_expectation_from_source.
+Goal (forall d p m, mb_optional (ts_obs_member m) = c04s_type_mark (c04r_seen (ts_c04_member d p m))) /\
+  (forall d p m, mb_optional (kt_obs_member m) = c04s_init_mark (c04r_seen (kt_c04_member d p m))) /\
+  (forall d m, mb_optional (sw_obs_member m) = c04s_type_mark (c04r_seen (sw_c04_member d m))) /\
+  (forall d m, mb_optional (sc_obs_member m) = c04s_init_mark (c04r_seen (sc_c04_member d m))) /\
+  (forall d m, mb_optional (go_obs_member m) = c04s_init_mark (c04r_seen (go_c04_member d m))) /\
+  (forall d m, mb_optional (py_obs_member m) = c04s_type_mark (c04r_seen (py_c04_member d m)) && c04s_init_mark (c04r_seen (py_c04_member d m))).
+Proof. exact Props.C04.C04_decl_optional_agrees. Qed.
+Print Assumptions Props.C04.C04_decl_optional_agrees.
